@@ -21,7 +21,9 @@ Sels  == {"none", "(4)", "(kind=8)", "*8", "(len=*)", "(len=:)", "(len=5, kind=1
 Attrs == {"INTENT(IN)", "INTENT(OUT)", "INTENT(INOUT)", "DIMENSION(:)", "DIMENSION(3, 2)", "ALLOCATABLE", "POINTER",
           "TARGET", "OPTIONAL", "SAVE", "PARAMETER", "CONTIGUOUS"}
 Decos == {"none", "dims(3)", "val:3", "val:3 * (2 + 1)", "val:'a(b'"}
-Docs  == {"none", "before", "after", "trailing", "beforeBlank"}
+Docs  == {"none", "before", "after", "trailing", "trailingComment", "beforeComment", "beforeBlank"}
+\* trailingComment: "!<" doc on the declaration line, an ordinary "!" comment on the next line
+\* beforeComment : "!>" block, then the declaration, then an ordinary "!" comment
 Intents == {"INTENT(IN)", "INTENT(OUT)", "INTENT(INOUT)"}
 
 VARIABLES mode, ty, sel, attrs, deco, doc, dummy, exp, call, cursor, active
@@ -63,7 +65,7 @@ Expected(t, s, a, d, dc, dm) ==
   [type  |-> <<t, s>>,
    attrs |-> AttrSet(a) \cup (IF d = "dims(3)" THEN {"DIMENSION(3)"} ELSE {}),
    value |-> IF IsVal(d) THEN d ELSE "none",
-   doc   |-> IF dc \in {"before", "after", "trailing"} THEN "own" ELSE "none"]
+   doc   |-> IF dc \in {"before", "after", "trailing", "trailingComment", "beforeComment"} THEN "own" ELSE "none"]
 
 AttrLists == {<<>>} \cup {<<x>> : x \in Attrs} \cup {<<x, y>> : x \in Attrs, y \in Attrs}
 
